@@ -29,6 +29,7 @@ import (
 	"strings"
 
 	"github.com/notaryproject/notation-go/log"
+	"pgregory.net/rapid"
 
 	"verifharness/internal/stats"
 )
@@ -169,12 +170,48 @@ func guard(entry string, inputLen int, fn func()) (f *finding) {
 			return
 		}
 		if d := totalAlloc() - before; d > runawayBytes && inputLen < runawayInputMax {
+			// the figure is rounded down to 64 MiB so that the message of a generated case is the same in every run
 			f = &finding{Key: "C12:runaway-allocation:" + entry,
-				Msg: fmt.Sprintf("%s allocated %d MiB for an input of %d bytes (limit %d MiB for inputs below %d MiB)", entry, d>>20, inputLen, runawayBytes>>20, runawayInputMax>>20)}
+				Msg: fmt.Sprintf("%s allocated >= %d MiB for an input of %d bytes (limit %d MiB for inputs below %d MiB)", entry, d>>26<<6, inputLen, runawayBytes>>20, runawayInputMax>>20)}
 		}
 	}()
 	fn()
 	return nil
+}
+
+// property decorates the body of a rapid property: a panic of the harness's own code
+// (generators, classification) outside guard() is re-raised with the "harness:" label, so
+// that it can never be mistaken for a failure of the property. rapid's own control-flow
+// panics (exhausted bit stream, Fatalf) pass through untouched.
+func property(body func(rt *rapid.T)) func(rt *rapid.T) {
+	return func(rt *rapid.T) {
+		defer func() {
+			r := recover()
+			if r == nil {
+				return
+			}
+			if _, ok := r.(harnessPanic); ok || strings.HasPrefix(fmt.Sprintf("%T", r), "rapid.") || strings.HasPrefix(fmt.Sprintf("%T", r), "*rapid.") {
+				panic(r)
+			}
+			_, _, text := analysePanic(debug.Stack())
+			panic(harnessPanic{fmt.Sprintf("harness: panic in the harness's own code: %v%s", r, text)})
+		}()
+		body(rt)
+	}
+}
+
+// fuzzBody does the same for a native fuzz function.
+func fuzzBody(t interface{ Fatalf(string, ...any) }, body func()) {
+	defer func() {
+		if r := recover(); r != nil {
+			if hp, ok := r.(harnessPanic); ok {
+				t.Fatalf("%s", hp.msg)
+			}
+			_, _, text := analysePanic(debug.Stack())
+			t.Fatalf("harness: panic in the harness's own code: %v%s", r, text)
+		}
+	}()
+	body()
 }
 
 // runner collects the findings and the class labels of one case.
